@@ -1456,7 +1456,7 @@ class NetCDFRead(IORead):
                 if groups:
                     # This dimension is in a group.
                     ncdim_basename = re.sub(
-                        "^{flattener_separator.join(groups)}{flattener_separator}",
+                        f"^{flattener_separator.join(groups)}{flattener_separator}",
                         "",
                         ncdim_flat,
                     )
@@ -4757,15 +4757,15 @@ class NetCDFRead(IORead):
         ncdim_groups = g["dimension_groups"].get(ncdim, ())
         n_ncdim_groups = len(ncdim_groups)
 
-        if g["variable_dimensions"].get(ncdim) == (ncdim,):
-            # There is a Unidata coordinate variable for this
-            # dimension, so create a domain axis and dimension
-            # coordinate
-            return ncdim, ""
+        # Whether or not there is a Unidata coordinate variable in the
+        # same group as this dimension
+        unidata = g["variable_dimensions"].get(ncdim) == (ncdim,)
 
         if not g["has_groups"]:
-            # This file has no group structure and there is no
-            # coordinate variable for this dimension
+            # This file has no group structure
+            if unidata:
+                return ncdim, ""
+
             return None, ""
 
         # ------------------------------------------------------------
@@ -4819,6 +4819,11 @@ class NetCDFRead(IORead):
             ]
             ncvar = ncvars[0][0]
             return ncvar, " (found by proximal search)"
+
+        if unidata:
+            # The only coordinate variable in scope is the data
+            # variable itself
+            return ncdim, ""
 
         if lateral_candidates:
             # Choose the coordinate variable that is closest the local
